@@ -99,10 +99,11 @@ func (m *mapIter[K, V]) MoveNext() bool {
 }
 
 func (m *mapIter[K, V]) Current() pair[K, V] {
-	return pair[K, V]{
-		Key: m.iter.Key().Interface().(K),
-		Val: m.iter.Value().Interface().(V),
-	}
+	// comma-ok assertions: a nil interface key/value has no dynamic type
+	// and must come out as the zero value of K/V instead of panicking
+	k, _ := m.iter.Key().Interface().(K)
+	v, _ := m.iter.Value().Interface().(V)
+	return pair[K, V]{Key: k, Val: v}
 }
 
 type chanIter[V any] struct {
